@@ -27,6 +27,10 @@ CHECKS = {
          "exhaustive generation of valid documents and unpruned token/byte sequences on the real parser, lock-step shadow stack and encoding/json as reference",
          "Every valid JSON document up to the token bound (all escape forms incl. backslash runs before the closing quote, all number forms) x whitespace at every token boundary is parsed and re-joined through State(), and must equal json.Compact byte for byte; on every token sequence and byte string up to the bound a shadow container stack checks End units and State(); a strict reference tokenizer + grammar walk locates the four named error classes, which must surface as ErrorGrammar with a non-EOF error before any unit past the offending token. Abstract parser states/transitions reached are reported.",
          "Bounds: documents <=7 (quick) / <=9 (thorough) tokens over 30 token spellings; token sequences <=5/6 over 12 tokens; byte strings <=4/5 atoms over 30 atoms; encoding/json trusted as judge."),
+ "C11": ("exploration",
+         "exhaustive generation of well-formed documents from a construct grammar with expected tokens by construction, differential comparison with encoding/xml, and bounded-exhaustive byte strings for the structural clauses",
+         "All documents made of 8 prologs x a root element x every sequence of <=2 (3) children from 34 constructs (also nested one level deeper), and every whitespace plan at the four in-tag positions (incl. CR or tab directly after the tag name) x 14 attribute shapes x second attributes x closers, are lexed: the (type, Text, AttrVal) list must equal the list known by construction, and element names, attribute names and entity-free values must equal encoding/xml Decoder.RawToken. On every byte string up to 5 atoms over a 30-atom alphabet and all single-edit neighbours of the XML seeds: Attribute tokens only between a start tag / PI target and its closer, an embedded NUL is reported as the unexpected-NULL *parse.Error, and no token extends past the NUL.",
+         "Attribute values compared after the tab/newline->space normalisation; documents encoding/xml rejects (about 8 percent, e.g. '<' inside attribute values) are compared with the constructed expectation only."),
  "C12": ("model_checking",
          "explicit-state search to a fix-point over the real cursor objects in lock-step with a reference cursor",
          "All reachable (start,pos) states of parse.Input and buffer.Lexer are enumerated (BFS to a fix-point, successor = fresh object + shortest history + one operation) for every byte string up to the bound over an alphabet holding every truncated UTF-8 shape, for 11 constructors incl. failing readers; every observer and mutator result is compared with a reference cursor, the caller's array is compared before/after Restore. Exhaustive within the bound; nothing is sampled.",
